@@ -143,6 +143,18 @@ CHECKS["C19"] = dict(
          "whole; SCI frames are aligned every five bytes) adopted from the driver's documented behaviour.",
     design="4/C19")
 
+CHECKS["C14"] = dict(
+    technique="exhaustive enumeration of 16-bit values through the library sequences against a frame-level DT8 Tc model; "
+              "fault injection on each answer; illegal-argument enumeration",
+    text="All 65 536 mirek values x {short, int, group, broadcast} for SetDT8ColourValueTc, all 4 x 65 536 limit stores, "
+         "every query selector (83) x stored values (thorough: all 65 536; quick: stride 61 + boundaries) with silence / "
+         "framing error injected at each of the four steps, and illegal colour temperatures / selectors that must be "
+         "rejected before the first command. Oracle: DTR0 = low byte, DTR1 = high byte (DTR2 = selector) at the moment the "
+         "unit executes the DT8 command, ACTIVATE follows, final registers equal the value; query returns exactly the "
+         "stored value, None on MASK / missing / garbled.",
+    note="Trusted: the IEC 62386-209 Tc subset of harness/model_gear.py (raw registers, device-type gating, send-twice rule).",
+    design="4/C14")
+
 NOT_BUILT_REASON = "check not built yet in this round (planned, see DESIGN.md section 4); not claimed until it is registered"
 
 
